@@ -8,7 +8,7 @@ from concurrent.futures import ThreadPoolExecutor
 V = os.path.dirname(os.path.dirname(os.path.abspath(__file__)))
 args = [a for a in sys.argv[1:] if not a.startswith('-')]
 allchecks = '--all-checks' in sys.argv
-seeds = args or sorted(os.listdir(os.path.join(V, 'seeded')))
+seeds = args or sorted(d for d in os.listdir(os.path.join(V, 'seeded')) if os.path.isdir(os.path.join(V, 'seeded', d)) and not d.startswith('_'))
 sys.path.insert(0, V)
 from pxa.props import CLAIMED
 def one (sid):
